@@ -130,6 +130,14 @@ impl<T: Qcow2IoOps> Qcow2Dev<T> {
         {
             Some(to_kill) => {
                 log::warn!("add_l2_slice: cache eviction, slices {}", to_kill.len());
+
+                // The evicted slices are gone from the cache but not on disk
+                // yet (the cache keeps them on its eviction list meanwhile).
+                // Serialize with flush_meta(): either it finds them there and
+                // writes them itself, or it runs after this write-back, but
+                // it never reports everything flushed in between.
+                let _flush_lock = self.flush_lock.lock().await;
+
                 let evicted = to_kill.clone();
                 let res = async {
                     // figure exact dependency on refcount cache & reftable entries
@@ -139,8 +147,9 @@ impl<T: Qcow2IoOps> Qcow2Dev<T> {
                 .await;
                 if res.is_err() {
                     // the evicted slices hold the only copy of their updates
-                    self.l2cache.put_back(evicted);
+                    self.l2cache.put_back(evicted.clone());
                 }
+                self.l2cache.eviction_done(&evicted);
                 res
             }
             _ => Ok(()),
